@@ -19,8 +19,11 @@ def run(ctx):
         for b in bs:
             fh.write(json.dumps(b) + "\n")
     # 3. real blocks of two real chains, recombined / damaged, into the real decoder (two entry points)
-    recs = ctx.go_replay("blockbinding", "TestReplay", inp, shards=1 if ctx.replay else ctx.pick(2, 4), timeout=1500)
-    ctx.absorb(recs)
+    #    (thorough: three independently built pairs of chains, i.e. different keys, transactions, messages, digests)
+    for k in range(1 if (ctx.quick() or ctx.replay) else 3):
+        recs = ctx.go_replay("blockbinding", "TestReplay", inp, shards=1 if ctx.replay else ctx.pick(2, 4), timeout=1500,
+                             env={"VERIF_SEED": str(ctx.seed + 1000 * k)})
+        ctx.absorb(recs)
     return ctx.finish(
         rule="a case = one byte stream: the real encoding of a real block X (5 shapes: with/without transactions, votes, BTP "
              "digest) whose patch list, transaction list, vote list, BTP digest and network-section filter each come from X, "
